@@ -52,15 +52,25 @@ Record case := {
   now_s : N;                 (* clock (s) read just before Compact/Compact2 *)
   now_r : N;                 (* clock (ns) read just before the final reads *)
   h1 : list cevent;
+  sched : list (list cevent);  (* operations issued from inside the copy loop, per visited record (scan-based only) *)
   h2 : list cevent;
+  h3 : list cevent;          (* operations after CommitCompact *)
   keys : list N;
-  impl_ev : list cres;       (* answers to h1 ++ h2 (identical on both volumes) *)
+  impl_ev : list cres;       (* answers to h1 ++ concat sched ++ h2 (identical on both volumes) *)
   impl_main : list rd;       (* per key: the compacted volume after CommitCompact *)
   impl_twin : list rd;       (* per key: the volume that was never compacted *)
   fin_dat : N;               (* compacted volume: .dat size, number of .idx entries, read-only flag *)
   fin_idx : N;
   fin_ro : bool;
-  twin_dat : N
+  twin_dat : N;
+  fin_rev : N;               (* CompactionRevision of the super block loaded by CommitCompact *)
+  fin_ks : list (N * Z);     (* (key, size) of every entry of the new .idx, sorted *)
+  impl_ev3_main : list cres; (* answers to h3 on the compacted volume / on the twin *)
+  impl_ev3_twin : list cres;
+  impl_main3 : list rd;      (* per key, after h3 *)
+  impl_twin3 : list rd;
+  fin_dat3 : N;
+  twin_dat3 : N
 }.
 
 Definition opt_eqb (a b : option (Z * view)) : bool :=
@@ -70,32 +80,70 @@ Definition opt_eqb (a b : option (Z * view)) : bool :=
   | _, _ => false
   end.
 
+(* (key, size) pairs in lexicographic order; sizes compared as integers *)
+Definition ks_leb (a b : N * Z) : bool :=
+  (fst a <? fst b) || ((fst a =? fst b) && (snd a <=? snd b)%Z).
+Fixpoint ks_ins (x : N * Z) (l : list (N * Z)) : list (N * Z) :=
+  match l with
+  | [] => [x]
+  | y :: l' => if ks_leb x y then x :: l else y :: ks_ins x l'
+  end.
+Definition ks_sort (l : list (N * Z)) : list (N * Z) := fold_right ks_ins [] l.
+Definition ks_eqb (a b : N * Z) : bool := (fst a =? fst b) && (snd a =? snd b)%Z.
+
+Definition is_some {A} (o : option A) : bool := match o with Some _ => true | None => false end.
+
 Definition check (c : case) : outcome :=
   let g := {| g_vttl := vttl c |} in
-  let ord := default_ord g (h1 c) (h2 c) in
-  let F := compacted_files g (algo c) (now_s c) ord (h1 c) (h2 c) in
+  let hm := List.concat (sched c) ++ h2 c in
+  let ord := default_ord g (h1 c) hm in
+  let F := compacted_files_il g (algo c) (now_s c) ord (h1 c) (sched c) (h2 c) in
   let m := commit F in
-  let t := twin g (h1 c) (h2 c) in
+  let t := twin g (h1 c) hm in
+  let sm := committed F in
+  let st := c_exec (vttl c) cinit (h1 c ++ hm) in
+  let s1 := c_exec (vttl c) cinit (h1 c) in
   let rd_of st := map (fun k => proj (store_read st k 0 false (now_r c))) (keys c) in
+  let noop := check_noop (check_files F) in
+  (* the trigger of one key: finding 0 and 1 per key, finding 2 (a property of the new files) per case *)
+  let trig_of k :=
+    if negb (no_empty_on k (h1 c ++ hm)) then Some 0
+    else if negb (ttl_consistent_on k (vttl c) (now_s c) (now_r c) (h1 c)) then Some 1
+    else if negb noop then Some 2
+    else None in
+  let same := map (fun ab => opt_eqb (readable (fst ab)) (readable (snd ab))) (combine (impl_main c) (impl_twin c)) in
+  let bad := map fst (filter (fun kb => negb (snd kb)) (combine (keys c) same)) in
   {| o_corr :=
-       all2 cres_eqb (c_outs (vttl c) cinit (h1 c ++ h2 c)) (impl_ev c)
+       all2 cres_eqb (c_outs (vttl c) cinit (h1 c ++ hm)) (impl_ev c)
        && all2 rd_eqb (rd_of m) (impl_main c)
        && all2 rd_eqb (rd_of t) (impl_twin c)
        && (dat_end m =? fin_dat c)
-       && (N.of_nat (List.length (f_idx F) - fst (fst (check_files F))) =? fin_idx c)
+       && (N.of_nat (List.length (cidx sm)) =? fin_idx c)
        && Bool.eqb (no_write_or_delete m) (fin_ro c)
-       && (dat_end t =? twin_dat c);
+       && (dat_end t =? twin_dat c)
+       && ((if makeup_fails (List.length (cidx s1)) st then 0 else 1) =? fin_rev c)
+       && all2 ks_eqb (ks_sort (map (fun e => (ie_key e, ie_size e)) (cidx sm))) (fin_ks c)
+       (* the volumes keep working after the commit *)
+       && all2 cres_eqb (c_outs (vttl c) sm (h3 c)) (impl_ev3_main c)
+       && all2 cres_eqb (c_outs (vttl c) st (h3 c)) (impl_ev3_twin c)
+       && all2 rd_eqb (rd_of (cv (c_exec (vttl c) sm (h3 c)))) (impl_main3 c)
+       && all2 rd_eqb (rd_of (cv (c_exec (vttl c) st (h3 c)))) (impl_twin3 c)
+       && (dat_end (cv (c_exec (vttl c) sm (h3 c))) =? fin_dat3 c)
+       && (dat_end (cv (c_exec (vttl c) st (h3 c))) =? twin_dat3 c);
      (* property oracle, on the implementation's answers only: every key reads the same on the
         compacted volume as on the never-compacted one (found with the same count and needle,
-        or not readable on both) *)
-     o_prop := all2 (fun a b => opt_eqb (readable a) (readable b)) (impl_main c) (impl_twin c);
+        or not readable on both), immediately after the commit *)
+     o_prop := (List.length (impl_main c) =? List.length (keys c))%nat
+               && all2 (fun a b => opt_eqb (readable a) (readable b)) (impl_main c) (impl_twin c);
+     (* a failing case is a known finding only when EVERY key that reads differently is inside a
+        trigger of its own; the finding reported is that of the first such key *)
      o_trig :=
-       if has_empty (h1 c ++ h2 c) then Some 0
-       else if negb (ttl_consistent (vttl c) (now_s c) (now_r c) (h1 c)) then Some 1
-       else if negb (reload_noop g (algo c) (now_s c) ord (h1 c) (h2 c)) then Some 2
-       else None;
+       match bad with
+       | [] => None
+       | k :: _ => if forallb (fun k => is_some (trig_of k)) bad then trig_of k else None
+       end;
      o_nontrivial :=
        existsb (fun x => match readable x with Some (_, v) => 0 <? blen (v_data v) | None => false end) (impl_twin c)
-       && negb (Nat.eqb (List.length (cidx (c_exec (vttl c) cinit (h1 c)))) 0) |}.
+       && negb (Nat.eqb (List.length (cidx s1)) 0) |}.
 
 Definition summarize_cases (l : list case) : summary := summarize check l.
